@@ -18,7 +18,7 @@ EXPLANATION = (
     "payloads). (R4) the API handlers for setting / reading the policy evaluated: the request's own document and policy are"
     ' forwarded, the stored policy is returned. (R5) the file-format migration that runs on open for stores written by '
     'iroh-docs 0.94..=0.98 (migrate_redb_v2_tuples::run), evaluated on an old file holding one row per table, carries the '
-    'download policies. (R6) the store actor forwards SetDownloadPolicy / GetDownloadPolicy one to one (the store-actor handler evaluated with the fields of the request as named tokens and gates / store / replica calls answered by an oracle, each step also failing in turn: the own fields of the request reach the core function in order on the addressed document, nothing is carried out after a failed step, the reply is the result of that function; the SyncHandle method evaluated: one request of its own kind, addressed to its namespace argument, each field one of its own parameters, the reply of the actor returned). (R7) the live actor handler of remote-insert events evaluated on download flag x content status: a download is started from the providing peer, or the hash recorded as missing, exactly when the flag is set. NOT decided: text round trip for all byte strings (hex/utf8 codecs trusted).'
+    'download policies. (R6) the store actor forwards SetDownloadPolicy / GetDownloadPolicy one to one (the store-actor handler evaluated with the fields of the request as named tokens and gates / store / replica calls answered by an oracle, each step also failing in turn: the own fields of the request reach the core function in order on the addressed document, nothing is carried out after a failed step, the reply is the result of that function; the SyncHandle method evaluated: one request of its own kind, addressed to its namespace argument, each field one of its own parameters, the reply of the actor returned). (R7) the live actor handler of remote-insert events evaluated on download flag x content status: a download is started from the providing peer, or the hash recorded as missing, exactly when the flag is set. (R8) = C06.R4 failing-body rows. NOT decided: text round trip for all byte strings (hex/utf8 codecs trusted).'
 )
 ASSUMPTIONS = ["postcard encode/decode are inverse (trusted)", "redb tables are identified by their key/value types"]
 
@@ -285,6 +285,13 @@ def r7(ctx):
     ctx.floor("C15.R7", 6)
 
 
+def r8(ctx):
+    """"once set, is returned unchanged by later reads": an acknowledged policy sits in the shared write transaction until the next
+    commit; a later failing request must not drop it (shared with C06.R4)"""
+    from . import C06
+    C06.share_failing_body(ctx, "C15.R8")
+
+
 def run(ctx):
     ctx.run_rule("C15.R1", r1)
     ctx.run_rule("C15.R2", r2)
@@ -293,3 +300,4 @@ def run(ctx):
     ctx.run_rule("C15.R5", r5)
     ctx.run_rule("C15.R6", r6)
     ctx.run_rule("C15.R7", r7)
+    ctx.run_rule("C15.R8", r8)
